@@ -28,6 +28,7 @@ verus! {
 //%include spec/sem.rs
 //%include spec/lemmas_tables.rs
 //%include prelude/vecspecs.rs
+//%include spec/lemmas_sems.rs
 //%include spec/optim.rs
 
 //%item optimiser.rs coalesce pub fn coalesce
